@@ -67,3 +67,18 @@ type namedHasher struct {
 	name string
 	mk   func() hash.Hasher
 }
+
+// labelledHasher is a fixedHasher that announces a caller-chosen algorithm identifier (a wrapper that
+// truncates or stretches a standard hasher would look like this): what matters to a consumer is Size()
+// and the bytes returned, not the label.
+type labelledHasher struct {
+	fixedHasher
+	alg hash.HashingAlgorithm
+}
+
+func (h *labelledHasher) Algorithm() hash.HashingAlgorithm { return h.alg }
+
+func newLabelledHasher(alg hash.HashingAlgorithm, size int) hash.Hasher {
+	inner := ctrHasher("labelled", false, size).(*fixedHasher)
+	return &labelledHasher{fixedHasher: *inner, alg: alg}
+}
